@@ -25,6 +25,7 @@ GHOST_SORTS = {
     "ghost.outb": BytesS,
     "ghost.closed": BoolS,
     # MQTT (A-AIO queue as a FIFO log; A-MQTT publish / subscribe logs; number of live background tasks)
+    "ghost.wfail": IntS,  # number of Transport.write calls that raised (C08: a failed write is reported, never swallowed)
     "ghost.qlen": IntS, "ghost.qhead": IntS, "ghost.qat": arr(IntS, Ref), "ghost.qmax": IntS,
     "ghost.plen": IntS, "ghost.ptopic": arr(IntS, StrS), "ghost.ppayload": arr(IntS, StrS), "ghost.pqos": arr(IntS, IntS),
     "ghost.slen": IntS, "ghost.stopic": arr(IntS, StrS), "ghost.sqos": arr(IntS, IntS),
